@@ -51,7 +51,10 @@ RunDef(r) ==
       [] r = "core3"  -> R(3, "core",   "empty", "std",   "all")
       [] r = "sig3"   -> R(3, "sig",    "sig1",  "std",   "all")
       [] r = "unit"   -> R(1, "all",    "mid2",  "std",   "all")
-      [] r = "small4" -> R(4, "small",  "empty", "quick", "all")
+      [] r = "cond6"  -> R(6, "cond",   "empty", "min",   "all")
+      [] r = "cond8"  -> R(8, "cond",   "empty", "min",   "all")
+      [] r = "small3s" -> R(3, "small", "empty", "std",   "all")
+      [] r = "tiny4"  -> R(4, "tiny",   "empty", "quick", "all")
       [] r = "core2m" -> R(2, "core",   "mid1",  "std",   "all")
       [] r = "simcore" -> R(40, "core", "empty", "std",   "alive")
       \* development
@@ -70,7 +73,8 @@ ConfigsQuick == {<<"b", f, "A">> : f \in {"0", "2", "5", "S"}} \cup {<<"w", f, "
 ConfigsOf(CfgName) ==
            CASE CfgName = "std"  -> ConfigsFor("A")
              [] CfgName = "quick" -> ConfigsQuick
-             [] CfgName = "lock" -> UNION {ConfigsFor(x) : x \in {"A", "B", "C", "D", "E"}}
+             [] CfgName = "lock" -> UNION {ConfigsFor(x) : x \in CtxNames}
+             [] CfgName = "min"  -> {<<"b", "0", "A">>, <<"w", "S", "A">>, <<"t", "S", "A">>}
 
 -----------------------------------------------------------------------------
 (* alphabets *)
@@ -106,6 +110,15 @@ AlphaSmall ==
               "OP_MIN", "OP_WITHIN", "OP_NOP", "OP_NOP1", "OP_CHECKLOCKTIMEVERIFY", "OP_CODESEPARATOR",
               "OP_SHA256", "OP_CAT", "OP_VERIF", "OP_RESERVED"})
 
+\* the smallest alphabet, for the deepest enumeration
+AlphaTiny ==
+    {Op("OP_0"), OpN(1), OpN(2), Push(EMax)}
+    \cup Ops({"OP_IF", "OP_NOTIF", "OP_ELSE", "OP_ENDIF", "OP_VERIFY", "OP_RETURN", "OP_TOALTSTACK", "OP_FROMALTSTACK",
+              "OP_DUP", "OP_DROP", "OP_SWAP", "OP_PICK", "OP_SIZE", "OP_EQUAL", "OP_ADD", "OP_SUB", "OP_NOT", "OP_DEPTH",
+              "OP_CODESEPARATOR", "OP_CHECKLOCKTIMEVERIFY"})
+\* conditionals only: nesting, ELSE in branches that are skipped
+AlphaCond == {Op("OP_0"), OpN(1)} \cup Ops({"OP_IF", "OP_NOTIF", "OP_ELSE", "OP_ENDIF", "OP_RETURN"})
+
 \* every opcode byte and every push form: the unit sweep
 AlphaAll == AllOneByte \cup PushForms
 
@@ -124,6 +137,8 @@ AlphaLock == Ops({"OP_CHECKLOCKTIMEVERIFY", "OP_CHECKSEQUENCEVERIFY", "OP_NOP1"}
 AlphaOf(AlphaName) ==
         CASE AlphaName = "core"  -> AlphaCore
            [] AlphaName = "small" -> AlphaSmall
+           [] AlphaName = "tiny"  -> AlphaTiny
+           [] AlphaName = "cond"  -> AlphaCond
            [] AlphaName = "all"   -> AlphaAll
            [] AlphaName = "sig"   -> AlphaSig
            [] AlphaName = "sigops" -> AlphaSigOps
